@@ -79,6 +79,23 @@ func genEmit(t *rapid.T) EmitCase {
 			}
 		}
 	}
+	// one action that emits more messages than any small buffer holds
+	if rapid.IntRange(0, 9).Draw(t, "burst") == 4 {
+		var withAction []string
+		for _, name := range a.NodeNames() {
+			if a.Nodes[name].Action != nil {
+				withAction = append(withAction, name)
+			}
+		}
+		if len(withAction) > 0 {
+			n := a.Nodes[rapid.SampledFrom(withAction).Draw(t, "burst.node")]
+			var pre []sm.Op
+			for i := rapid.SampledFrom([]int{15, 16, 17, 18, 33, 70}).Draw(t, "burst.n"); i > 0; i-- {
+				pre = append(pre, sm.Op{Op: "emit", V: map[string]interface{}{"burst": float64(i)}})
+			}
+			n.Action.Ops = append(pre, n.Action.Ops...)
+		}
+	}
 	// emit, change in place, emit again: what is reported is what was
 	// emitted at the time, not what the object became
 	if rapid.IntRange(0, 2).Draw(t, "progress") == 0 {
